@@ -94,6 +94,14 @@ def check(run: Run) -> None:
     for s in ("x = '\ud800'\n", "'\udfff'\n", "x = f'\ud800{y}'\n", "$(echo '\ud800')\n", "f'{x:{y=}}'\n", "f'{x:{y=!r:{z=}}}'\n", "x = " + "7" * 5000 + "\n", "x = 0x" + "f" * 5000 + "\n",
               "x = " + "1" * 5000 + ".5\n", "x = " + "1" * 400 + "e" + "9" * 400 + "\n", "x = 1e" + "9" * 30 + "j\n"):
         add(s, "literal-evaluation")
+    from . import c02
+
+    for s in c02.call_matrix() + c02.operand_matrix() + c02.eval_matrix() + corpus.invalid_seeds():
+        add(s, "rejected-or-not:matrices")
+    for d in range(8, 70):
+        for o, c_ in (("(", ")"), ("[", "]"), ("f(", ")"), ("{1: ", "}"), ("$(echo @(", "))")):
+            add("x = " + o * d + "a" + c_ * d + " +\n", "depth-band:rejected")
+            add(o * d + "a b" + c_ * d + "\n", "depth-band:rejected")
     for c in gens.indent(run)[:: (3 if run.tier == "quick" else 1)]:
         add(c["src"], "indent.tla")
     for c in gens.fmode(run)[:: (4 if run.tier == "quick" else 3)]:
